@@ -189,6 +189,7 @@ var c14Tags = []string{"min=abc", "len=", "oneof=", "enum=|", "gt=1e999", "uniqu
 func c14Gen(t *rapid.T) c14Model {
 	pf := projgen.FullProfile
 	pf.MaxControllers, pf.MaxMethods, pf.Decoys = 2, 3, false
+	pf.VarySchemes = true // the scheme catalogue is input too: every scheme type, any subset of oauth2 flows
 	m := c14Model{Project: projgen.GenProject(t, pf)}
 	n := rapid.IntRange(1, 4).Draw(t, "nDecos")
 	for i := 0; i < n; i++ {
